@@ -67,8 +67,9 @@ def make_plane(name, seed):
             opd = np.array(p.opd, copy=True)     # fit_tilt itself is judged by C04; the residual OPD is read back
         return p, dict(info, ptype='pupil', z=1.0, ps=DX, amp=a['A3'], opd=opd, mask=a['seg'].sum(0) > 0,
                        tilt=1 if name == 'seg_fit' else 0)
-    if name == 'seg3_fit':
-        p = lentil.Pupil(amplitude=c(a['A2']), opd=c(a['O3t']), mask=c(a['seg3']), pixelscale=DX, focal_length=1.0).fit_tilt()
+    if name in ('seg3_fit', 'seg3_fit_b', 'seg3_fit_c'):
+        order = {'seg3_fit': [0, 1, 2], 'seg3_fit_b': [1, 0, 2], 'seg3_fit_c': [1, 2, 0]}[name]     # which chip of the chain is listed first
+        p = lentil.Pupil(amplitude=c(a['A2']), opd=c(a['O3t']), mask=c(a['seg3'][order]), pixelscale=DX, focal_length=1.0).fit_tilt()
         return p, dict(info, ptype='pupil', z=1.0, ps=DX, amp=a['A2'], opd=np.array(p.opd, copy=True), tilt=1)
     if name == 'seg_scalar':
         return (lentil.Pupil(amplitude=0.5, opd=c(a['O3']), mask=c(a['seg']), pixelscale=DX, focal_length=1.0),
@@ -79,6 +80,13 @@ def make_plane(name, seed):
     if name == 'mask_scalar':
         return (lentil.Plane(amplitude=0.5, opd=WL / 8, mask=c(a['M1'])),
                 dict(info, amp=0.5, opd=WL / 8, mask=a['M1'] != 0))
+    if name == 'mask_scalar_used_rescaled':
+        # a plane object with a history: used once, then resampled; what it applies must be what its attributes say now
+        p0 = lentil.Plane(amplitude=0.5, opd=WL / 8, mask=c(a['M1']))
+        lentil.Wavefront(WL) * p0
+        q = p0.rescale(2)
+        qm = np.asarray(q.mask)
+        return q, dict(info, shape=tuple(qm.shape), amp=float(np.asarray(q.amplitude)), opd=float(np.asarray(q.opd)), mask=qm != 0)
     if name == 'mask_opd':
         return (lentil.Plane(amplitude=0.5, opd=c(a['O1']), mask=c(a['M1'])),
                 dict(info, amp=0.5, opd=a['O1'], mask=a['M1'] != 0))
@@ -92,13 +100,16 @@ def make_plane(name, seed):
         return lentil.Tilt(x=1e-6, y=-2e-6), dict(info, ptype='tilt', shape=(), tilt=1)
     if name == 'image':
         return lentil.Image(amplitude=c(a['A2'])), dict(info, ptype='image', amp=a['A2'])
+    if name == 'px_tiny':
+        # nanometre-scale sampling: a mismatch far below any sensible absolute tolerance is still a mismatch
+        return lentil.Plane(amplitude=c(a['A2']), pixelscale=(2e-9, 7e-9)), dict(info, ps=(2e-9, 7e-9), amp=a['A2'])
     if name == 'px_other':
         return lentil.Plane(amplitude=c(a['A2']), pixelscale=2 * DX), dict(info, ps=2 * DX, amp=a['A2'])
     raise ValueError(name)
 
 
-PLANES = ['plane0', 'pupil', 'pupil2', 'seg', 'seg_fit', 'seg3_fit', 'seg_scalar', 'pupil_fit', 'mask_scalar', 'mask_opd', 'amp_mask', 'opd_only',
-          'small', 'tilt', 'image', 'px_other']
+PLANES = ['plane0', 'pupil', 'pupil2', 'seg', 'seg_fit', 'seg3_fit', 'seg3_fit_b', 'seg3_fit_c', 'seg_scalar', 'pupil_fit', 'mask_scalar', 'mask_scalar_used_rescaled', 'mask_opd', 'amp_mask', 'opd_only',
+          'small', 'tilt', 'image', 'px_other', 'px_tiny']
 PROPS = {'prop': dict(shape=(3, 4), prop_shape=None, oversample=2), 'prop_win': dict(shape=(5, 5), prop_shape=(2, 3), oversample=1),
          'prop_small': dict(shape=(6, 6), prop_shape=(2, 2), oversample=1)}
 
@@ -126,13 +137,16 @@ class St:
         self.refused = False
 
 
+INIT_PS = {'fresh': None, 'with_pixelscale': DX, 'tiny_pixelscale': 2e-9}
+
+
 def model_init(init):
-    return dict(shape=(), field=1 + 0j, wl=WL, z=np.inf, ps=(None if init == 'fresh' else DX), ptype='none', tilt=0)
+    return dict(shape=(), field=1 + 0j, wl=WL, z=np.inf, ps=INIT_PS[init], ptype='none', tilt=0)
 
 
 def build(init, seed=0):
     import lentil
-    w = lentil.Wavefront(WL) if init == 'fresh' else lentil.Wavefront(WL, pixelscale=DX)
+    w = lentil.Wavefront(WL) if init == 'fresh' else lentil.Wavefront(WL, pixelscale=INIT_PS[init])
     return St(w, model_init(init))
 
 
@@ -142,7 +156,7 @@ def enabled(st):
         return []
     ev = []
     for p in PLANES:
-        pt = {'pupil': 'pupil', 'pupil2': 'pupil', 'seg': 'pupil', 'seg_fit': 'pupil', 'seg3_fit': 'pupil', 'seg_scalar': 'pupil', 'pupil_fit': 'pupil', 'tilt': 'tilt',
+        pt = {'pupil': 'pupil', 'pupil2': 'pupil', 'seg': 'pupil', 'seg_fit': 'pupil', 'seg3_fit': 'pupil', 'seg3_fit_b': 'pupil', 'seg3_fit_c': 'pupil', 'seg_scalar': 'pupil', 'pupil_fit': 'pupil', 'tilt': 'tilt',
               'image': 'image'}.get(p, 'none')
         if (m['ptype'], pt) in MUL_TABLE:
             ev.append(p)
@@ -307,7 +321,7 @@ def check(st, hist, acc):
         bad = True
     if np.ndim(fld) == 2:
         for prefill in (False, True):
-            for wt in (1, 0.5, 3):
+            for wt in (1, 0.5, 3, -1):
                 out0 = np.zeros(fld.shape) + (0.25 * (1 + np.arange(fld.size).reshape(fld.shape)) if prefill else 0)
                 buf = out0.copy()
                 try:
@@ -371,12 +385,12 @@ def t_bfs(arg, acc):
 def run(tier, seed, acc, procs=None):
     depth = 4 if tier == 'quick' else 5
     tasks = []
-    for init in ('fresh', 'with_pixelscale'):
+    for init in ('fresh', 'with_pixelscale', 'tiny_pixelscale'):
         s0 = build(init, seed)
         check(s0, {'init': init, 'events': []}, acc)
         acc.states += 1
         for ev in enabled(s0):
-            tasks.append(('t_bfs', {'seed': seed, 'depth': depth, 'init': init, 'first': ev}))
+            tasks.append(('t_bfs', {'seed': seed, 'depth': depth if init != 'tiny_pixelscale' else 2, 'init': init, 'first': ev}))
     engine.run_parallel(MOD, tasks, acc, procs)
     return {
         'rule': 'breadth-first search over chains of plane multiplications (14 plane kinds: default, pupils, segmented with '
